@@ -54,6 +54,10 @@ GOWIN = [  # (table name, class, module, devicename, device)
 ]
 
 
+GW5A = [("GW5A", "GW5A-25", "GW5A-LV25MG121NES"), ("GW5AT", "GW5AT-60", "GW5AT-LV60PG484AC1/I0"),
+        ("GW5AST", "GW5AST-138", "GW5AST-LV138FPG676AES")]
+
+
 def clock_mod(name):
     return importlib.import_module("litex.soc.cores.clock." + name)
 
@@ -143,6 +147,17 @@ def tables():
         T["gowin"].append({"name": name, "pfd": tuple(map(F, o.pfd_freq_range)), "vco": tuple(map(F, o.vco_freq_range))})
     from litex.soc.cores.clock.gowin_gw1n import GW1NOSC
     T["gwosc"] = {"div": GW1NOSC.osc_div_range}
+    from litex.soc.cores.clock.gowin_gw5a import GW5APLL
+    T["gw5a"] = []
+    for name, devname, dev in GW5A:
+        o = GW5APLL(devname, dev)
+        T["gw5a"].append({"name": name, "pfd": tuple(map(F, o.pfd_freq_range)), "vco": tuple(map(F, o.vco_freq_range)),
+                          "nmax": o.nclkouts_max})
+    from litex.soc.cores.clock.efinix import TRIONPLL
+    T["trion"] = {"vco": tuple(map(F, TRIONPLL.get_vco_freq_range(None))), "pfd": tuple(map(F, TRIONPLL.get_pfd_freq_range(None))),
+                  "pll": tuple(map(F, TRIONPLL.get_pll_freq_range(None))), "nmax": TRIONPLL.nclkouts_max,
+                  "c_phase": {str(p): list(TRIONPLL.get_c_range(None, p)) for p in (45, 90, 135, 180, 270)},
+                  "c0": [TRIONPLL.get_c_range(None, 0)[0], TRIONPLL.get_c_range(None, 0)[-1], len(TRIONPLL.get_c_range(None, 0))]}
     return T
 
 
@@ -257,7 +272,7 @@ def instance_params(module, of_names):
     from migen.fhdl.specials import Instance
     from migen.fhdl.structure import Constant
     out = None
-    for s in module.get_fragment().specials:
+    for s in frag_of(module).specials:
         if isinstance(s, Instance) and s.of in of_names:
             assert out is None, "more than one primitive instance"
             out = {}
@@ -281,6 +296,53 @@ def finalize_capture(obj):
     with quiet():
         obj.finalize()
     return cap[0] if cap else None
+
+
+def frag_of(module):
+    """get_fragment() may be called once per module: cache it."""
+    fr_ = getattr(module, "_c20_fragment", None)
+    if fr_ is None:
+        fr_ = module.get_fragment()
+        object.__setattr__(module, "_c20_fragment", fr_)
+    return fr_
+
+
+def instance_outputs(module, of_names):
+    """{port name: connected expression} of the output ports of the primitive instance."""
+    from migen.fhdl.specials import Instance
+    for sp in frag_of(module).specials:
+        if isinstance(sp, Instance) and sp.of in of_names:
+            return {it.name: it.expr for it in sp.items if isinstance(it, Instance.Output)}
+    return {}
+
+
+def do_calls(c, reg, creates):
+    """register_clkin / create_clkout in the order users may choose (clkin first or last)."""
+    if c.get("clkin_last"):
+        for t in creates:
+            t()
+        reg()
+    else:
+        reg()
+        for t in creates:
+            t()
+
+
+def kw_for(c, p, m, default_m=1e-2, with_phase=True):
+    """keyword arguments of create_clkout; with c['defaults'] the default-valued ones are left to the callee."""
+    kw = {}
+    if with_phase and not (c.get("defaults") and p == 0):
+        kw["phase"] = p
+    if not (c.get("defaults") and m == default_m):
+        kw["margin"] = m
+    return kw
+
+
+def gen_flags(rng, c):
+    """rarely used call patterns: defaults left to the callee, clkin registered after the outputs."""
+    c["defaults"] = rng.random() < 0.3
+    c["clkin_last"] = rng.random() < 0.2
+    return c
 
 
 def mk_cd(i):
@@ -403,22 +465,32 @@ class Xilinx:
         try:
             o = mk_xilinx(cls, int(g))
             o.vco_margin = c["vm"]
-            o.register_clkin(Signal(), c["clkin"])
-            for i, (f, p, m) in enumerate(c["outs"]):
-                o.create_clkout(mk_cd(i), f, phase=p, margin=m, buf=None, with_reset=False)
+            do_calls(c, lambda: o.register_clkin(Signal(), c["clkin"]),
+                     [lambda i=i, f=f, p=p, m=m: o.create_clkout(mk_cd(i), f, buf=c.get("buf"),
+                                                                 with_reset=bool(c.get("with_reset")), **kw_for(c, p, m))
+                      for i, (f, p, m) in enumerate(c["outs"])])
             cfg = finalize_capture(o)
+            again = o.compute_config() if c.get("twice") else cfg
         except Exception as e:
             return {"status": status_of(e), "exc": repr(e)}
         outs = []
         for n in range(len(c["outs"])):
             outs.append((F(cfg["clkout%d_divide" % n]), F(cfg["clkout%d_freq" % n]), F(cfg["clkout%d_phase" % n])))
         params = instance_params(o, (prim_of,)) or {}
+        ports = instance_outputs(o, (prim_of,))
+        if cls == "S6DCM":
+            wiring = ports.get("CLKFX") is o.clkouts[0][0]
+            period = params.get("CLKIN_PERIOD")
+        else:
+            wiring = all(ports.get("CLKOUT%d" % n) is o.clkouts[n][0] for n in range(len(c["outs"]))) and \
+                not any(("CLKOUT%d" % n) in ports for n in range(len(c["outs"]), 8))
+            period = params.get("CLKIN1_PERIOD")
         num = {}
         for k, v in params.items():
             if x_param_names().match(k):
                 num[k] = F(v)
         return {"status": "ok", "divclk": cfg["divclk_divide"], "mult": F(cfg["clkfbout_mult"]), "vco": F(cfg["vco"]),
-                "outs": outs, "params": num}
+                "outs": outs, "params": num, "wiring": bool(wiring), "period": period, "idempotent": again == cfg}
 
     # --- model answer
     def parse(self, c, line):
@@ -575,6 +647,12 @@ class Xilinx:
                     if not rel_close(vco / dv, fq):
                         viol.append("clkout%d reported freq differs from vco/divider" % n)
             viol += self.params_check(c, real)
+            if not real["wiring"]:
+                viol.append("primitive output ports are not connected to the requested clock outputs in order")
+            if real["period"] is None or not rel_close(F(real["period"]) * clkin, F(10 ** 9), F(1, 10 ** 12)):
+                viol.append("CLKIN period parameter %s does not match the input frequency" % real["period"])
+            if not real["idempotent"]:
+                viol.append("a second compute_config() call returns a different configuration")
         elif real["status"] == "rejected":
             if robust is not None:
                 viol.append("refused although divclk=%s mult=%s satisfies the request inside the declared ranges" % robust)
@@ -662,7 +740,10 @@ class Xilinx:
                 f = rng.choice([25e6, 50e6, 100e6, 125e6, 133.333e6, 148.5e6, 200e6, 300e6, 400e6, 48e6, 12.288e6, 74.25e6,
                                 float(rng.randrange(5_000_000, 700_000_000))])
             outs.append((f, p, m))
-        return {"fam": "xilinx", "dev": d["name"], "clkin": clkin, "vm": vm, "outs": outs}
+        c = {"fam": "xilinx", "dev": d["name"], "clkin": clkin, "vm": vm, "outs": outs,
+             "buf": rng.choice([None, None, "bufg", "bufr", "bufh", "bufio", "BUFG"]), "with_reset": rng.random() < 0.2,
+             "twice": rng.random() < 0.15 and not usp}
+        return gen_flags(rng, c)
 
 
 COMMON_CLKIN = [8e6, 10e6, 12e6, 16e6, 19.2e6, 24e6, 25e6, 26e6, 27e6, 33e6, 33.333e6, 38.4e6, 40e6, 48e6, 50e6, 66e6,
@@ -681,6 +762,8 @@ def gen_clkin(rng, lo, hi):
     else:
         f = float(rng.randrange(int(lo) // 1000, int(hi) // 1000 + 1) * 1000)
     f = min(max(f, float(lo)), float(hi))
+    if rng.random() < 0.04:
+        f = float(rng.choice([lo, hi]))          # the ends of the legal input range
     return int(f) if rng.random() < 0.25 else f
 
 
@@ -718,9 +801,11 @@ class Ecp5:
             o = ECP5PLL()
             if c["dpa_en"]:
                 o.expose_dpa()
-            o.register_clkin(Signal(), c["clkin"])
-            for i, (f, p, m, dpa) in enumerate(c["outs"]):
-                o.create_clkout(mk_cd(i), f, phase=p, margin=m, with_reset=False, uses_dpa=bool(dpa))
+            do_calls(c, lambda: o.register_clkin(Signal(), c["clkin"]),
+                     [lambda i=i, f=f, p=p, m=m, dpa=dpa: o.create_clkout(mk_cd(i), f, with_reset=False,
+                                                                        **({} if c.get("defaults") and dpa else {"uses_dpa": bool(dpa)}),
+                                                                        **kw_for(c, p, m))
+                      for i, (f, p, m, dpa) in enumerate(c["outs"])])
             cfg = finalize_capture(o)
         except Exception as e:
             return {"status": status_of(e), "exc": repr(e)}
@@ -733,7 +818,10 @@ class Ecp5:
             if ("CLKO%s_DIV" % l) in P:
                 per.append((n, P.get("CLKO%s_DIV" % l), P.get("CLKO%s_FPHASE" % l), P.get("CLKO%s_CPHASE" % l),
                             P.get("CLKO%s_ENABLE" % l)))
+        ports = instance_outputs(o, ("EHXPLLL",))
+        wiring = all(ports.get("CLKO" + self.N2L[n]) is o.clkouts[n][0] for n in range(nd))
         return {"status": "ok", "clki": cfg["clki_div"], "fb": cfg["clkfb_div"], "clkfb": cfg["clkfb"], "vco": F(cfg["vco"]),
+                "wiring": bool(wiring),
                 "divs": divs, "freqs": [F(cfg["clko%d_freq" % n]) for n in range(len(c["outs"]))],
                 "P": {"CLKI_DIV": P.get("CLKI_DIV"), "CLKFB_DIV": P.get("CLKFB_DIV"), "FEEDBK_PATH": P.get("FEEDBK_PATH"),
                       "per": per}}
@@ -878,6 +966,8 @@ class Ecp5:
                 for n, (f, p, m, dpa) in enumerate(outs):
                     if divs[n] > 0 and not (abs(vco / divs[n] - f) <= f * m + SLACK * f):
                         viol.append("clko%d: %s Hz vs requested %s Hz margin %s" % (n, float(vco / divs[n]), float(f), float(m)))
+            if not real["wiring"]:
+                viol.append("EHXPLLL output ports are not connected to the requested clock outputs in order")
             # instance parameters
             P = real["P"]
             if P["CLKI_DIV"] != clki or P["CLKFB_DIV"] != fb or P["FEEDBK_PATH"] != "INT_O" + self.N2L.get(cf, "?"):
@@ -943,7 +1033,7 @@ class Ecp5:
                                 float(rng.randrange(3_125_000, 400_000_001))])
             f = min(max(f, float(flo)), float(fhi))
             outs.append((f, p, m, int(rng.random() < 0.3)))
-        return {"fam": "ecp5", "clkin": clkin, "dpa_en": dpa_en, "outs": outs}
+        return gen_flags(rng, {"fam": "ecp5", "clkin": clkin, "dpa_en": dpa_en, "outs": outs})
 
 
 # ------------------------------------------------------------------------------------------------------------------
@@ -951,12 +1041,76 @@ class Ecp5:
 # ------------------------------------------------------------------------------------------------------------------
 
 _FAMS = None
+PIN_PATH = os.path.join(VERIF, "corpus", "C20", "tables.pinned.json")
+
+
+def tables_jsonable(T):
+    def conv(x):
+        if isinstance(x, F):
+            return "%d/%d" % (x.numerator, x.denominator)
+        if isinstance(x, dict):
+            return {k: conv(v) for k, v in x.items()}
+        if isinstance(x, (list, tuple)):
+            return [conv(v) for v in x]
+        return x
+    return conv(T)
+
+
+def tables_from_json(J):
+    def conv(x):
+        if isinstance(x, str) and "/" in x and x.replace("/", "").replace("-", "").isdigit():
+            a, b = x.split("/")
+            return F(int(a), int(b))
+        if isinstance(x, dict):
+            return {k: conv(v) for k, v in x.items()}
+        if isinstance(x, list):
+            return tuple(conv(v) for v in x)
+        return x
+    T = conv(J)
+    for fam in ("xilinx", "intel", "gowin", "gw5a"):
+        if fam in T:
+            T[fam] = [dict(d) for d in T[fam]]
+            for d in T[fam]:
+                if "specific" in d:
+                    d["specific"] = list(d["specific"])
+    return T
+
+
+def pinned_tables():
+    """The device limits the ORACLE and the generators use: a pinned copy (corpus/C20/tables.pinned.json) of the range
+    tables of the reviewed tree, NOT the attributes of the classes under test — so a change of a declared range in
+    the code cannot hide itself.  (The Lean model follows the regenerated tables; any difference between the two is
+    reported.)  Re-pin deliberately with  C20_REPIN=1 ./check C20."""
+    import json
+    if os.environ.get("C20_REPIN") == "1" or not os.path.exists(PIN_PATH):
+        with open(PIN_PATH, "w") as f:
+            json.dump(tables_jsonable(tables()), f, indent=1, sort_keys=True)
+    return tables_from_json(json.load(open(PIN_PATH)))
+
+
+def table_diffs():
+    """differences between the class attributes of the tree under test and the pinned tables."""
+    cur, pin = tables_jsonable(tables()), tables_jsonable(pinned_tables())
+    out = []
+
+    def walk(a, b, path):
+        if isinstance(a, dict) and isinstance(b, dict):
+            for k in sorted(set(a) | set(b)):
+                walk(a.get(k), b.get(k), path + "." + str(k))
+        elif isinstance(a, list) and isinstance(b, list) and len(a) == len(b):
+            for i, (x, y) in enumerate(zip(a, b)):
+                nm = x.get("name", i) if isinstance(x, dict) else i
+                walk(x, y, path + "[%s]" % nm)
+        elif a != b:
+            out.append("%s: tree=%s pinned=%s" % (path.lstrip("."), a, b))
+    walk(cur, pin, "")
+    return out
 
 
 def fams():
     global _FAMS
     if _FAMS is None:
-        T = tables()
+        T = pinned_tables()
         _FAMS = {}
         for cls in FAMILY_CLASSES:
             o = cls(T)
@@ -974,12 +1128,43 @@ def jsonable(x):
     return x
 
 
+CASE_TIMEOUT_S = int(os.environ.get("C20_CASE_TIMEOUT", "150"))
+
+
+class CaseTimeout(BaseException):
+    pass
+
+
+def _alarm(signum, frame):
+    raise CaseTimeout()
+
+
+def run_real_guarded(fam, c):
+    """the real code with a wall-clock limit: a hang of a changed implementation ends as status 'timeout'."""
+    import signal
+    try:
+        old = signal.signal(signal.SIGALRM, _alarm)
+    except ValueError:           # not in the main thread
+        return fam.real(c)
+    signal.setitimer(signal.ITIMER_REAL, CASE_TIMEOUT_S)
+    try:
+        return fam.real(c)
+    except CaseTimeout:
+        return {"status": "timeout", "exc": "no answer within %d s" % CASE_TIMEOUT_S}
+    finally:
+        signal.setitimer(signal.ITIMER_REAL, 0)
+        signal.signal(signal.SIGALRM, old)
+
+
 def run_case(fam, c, model_line):
     """-> record dict (JSON-able)."""
     import time
     t0 = time.process_time()
-    real = fam.real(c)
+    real = run_real_guarded(fam, c)
     t1 = time.process_time()
+    if real["status"] == "timeout":
+        return {"case": c, "status": "timeout", "dis": None, "borderline": False, "region": None,
+                "viol": ["the real code did not answer within %d s (hang)" % CASE_TIMEOUT_S], "real": real}
     rec = {"case": c, "status": real["status"], "dis": None, "viol": [], "borderline": False, "region": None}
     if real["status"] == "assertion" and hasattr(fam, "out_of_domain") and fam.out_of_domain(c):
         rec["out_of_domain"] = True          # input outside the declared legal ranges, refused by the helper's assert
@@ -1024,20 +1209,33 @@ def _chunk_worker(args):
     envshim.install()
     fast_tracer()
     F_ = fams()
-    lines = [F_[c["fam"]].lean_line(c) for c in cases]
+    all_lines = [F_[c["fam"]].lean_line(c) for c in cases]
+    idx_with = [i for i, l in enumerate(all_lines) if l is not None]
+    lines = [all_lines[i] for i in idx_with]
     answers = [None] * len(cases)
     drv = None
+    lean_err = None
     if use_lean:
         from leanproc import LeanDriver
-        drv = LeanDriver("C20")
         try:
-            answers = drv.call_batch(lines)
-        finally:
-            drv.quit()
+            drv = LeanDriver("C20")
+            try:
+                got = drv.call_batch(lines)
+                for i, a in zip(idx_with, got):
+                    answers[i] = a
+            finally:
+                drv.quit()
+        except Exception as e:      # the oracle still runs on every case
+            lean_err = repr(e)
+            answers = [None] * len(cases)
     out = []
     for c, a in zip(cases, answers):
         try:
+            if a is None and F_[c["fam"]].lean_line(c) is None:
+                pass
             out.append(run_case(F_[c["fam"]], c, a))
+            if lean_err and not out[-1].get("error") and F_[c["fam"]].lean_line(c) is not None:
+                out[-1]["error"] = "lean driver: " + lean_err
         except Exception:
             import traceback
             out.append({"case": c, "status": "error", "dis": None, "viol": [], "borderline": False, "region": None,
@@ -1083,14 +1281,18 @@ class Ice40:
         from litex.soc.cores.clock.lattice_ice40 import iCE40PLL
         try:
             o = iCE40PLL(primitive=c.get("prim", "SB_PLL40_CORE"))
-            o.register_clkin(Signal(), c["clkin"])
-            o.create_clkout(mk_cd(0), c["out"][0], margin=c["out"][1], with_reset=False)
+            do_calls(c, lambda: o.register_clkin(Signal(), c["clkin"]),
+                     [lambda: o.create_clkout(mk_cd(0), c["out"][0], with_reset=False,
+                                              **kw_for(c, 0, c["out"][1], with_phase=False))])
             cfg = finalize_capture(o)
+            again = o.compute_config() if c.get("twice") else cfg
         except Exception as e:
             return {"status": status_of(e), "exc": repr(e)}
         P = instance_params(o, ("SB_PLL40_CORE", "SB_PLL40_PAD")) or {}
         return {"status": "ok", "divr": cfg["divr"], "divf": cfg["divf"], "divq": cfg["divq"], "vco": F(cfg["vco"]),
                 "freq": F(cfg["clkout_freq"]),
+                "wiring": instance_outputs(o, ("SB_PLL40_CORE", "SB_PLL40_PAD")).get("PLLOUTGLOBAL") is o.clkouts[0][0],
+                "idempotent": again == cfg,
                 "P": {k: P.get(k) for k in ("DIVR", "DIVF", "DIVQ", "FILTER_RANGE", "FEEDBACK_PATH")}}
 
     def parse(self, c, line):
@@ -1176,6 +1378,10 @@ class Ice40:
             want = next((v for t, v in self.FILTER if pfd < F(t)), None)
             if (P["DIVR"], P["DIVF"], P["DIVQ"]) != (divr, divf, divq) or P["FILTER_RANGE"] != want:
                 viol.append("instance parameters %s do not equal the configuration (filter range %s)" % (P, want))
+            if not real["wiring"]:
+                viol.append("PLLOUTGLOBAL is not connected to the requested clock output")
+            if not real["idempotent"]:
+                viol.append("a second compute_config() call returns a different configuration")
         elif real["status"] == "rejected":
             if robust is not None:
                 viol.append("refused although divr=%s divf=%s satisfies the request" % robust)
@@ -1207,7 +1413,9 @@ class Ice40:
         else:
             f = rng.choice([16e6, 24e6, 48e6, 50e6, 100e6, 133.333e6, float(rng.randrange(16_000_000, 275_000_000))])
         f = min(max(f, float(d["clko_freq"][0])), float(d["clko_freq"][1]))
-        return {"fam": "ice40", "clkin": clkin, "out": (f, m), "prim": rng.choice(["SB_PLL40_CORE", "SB_PLL40_PAD"])}
+        c = {"fam": "ice40", "clkin": clkin, "out": (f, m), "prim": rng.choice(["SB_PLL40_CORE", "SB_PLL40_PAD"]),
+             "twice": rng.random() < 0.3}
+        return gen_flags(rng, c)
 
 
 # ------------------------------------------------------------------------------------------------------------------
@@ -1231,13 +1439,16 @@ class Nx:
         try:
             with quiet():
                 o = NXPLL()
-            o.register_clkin(Signal(), c["clkin"])
-            for i, (f, p, m) in enumerate(c["outs"]):
-                o.create_clkout(mk_cd(i), f, phase=p, margin=m)
+            cds = [mk_cd(i) for i in range(len(c["outs"]))]
+            do_calls(c, lambda: o.register_clkin(Signal(), c["clkin"]),
+                     [lambda i=i, f=f, p=p, m=m: o.create_clkout(cds[i], f, **kw_for(c, p, m))
+                      for i, (f, p, m) in enumerate(c["outs"])])
             if c.get("finalize"):
                 cfg = finalize_capture(o)
             else:
                 cfg = o.compute_config()
+                if c.get("twice") and o.compute_config() != cfg:
+                    return {"status": "crash", "exc": "a second compute_config() call returns a different configuration"}
         except Exception as e:
             return {"status": status_of(e), "exc": repr(e)}
         r = {"status": "ok", "clki": cfg["clki_div"], "fb": cfg["clkfb_div"], "vco": F(cfg["vco"]),
@@ -1248,6 +1459,8 @@ class Nx:
             for n in range(len(c["outs"])):
                 l = chr(65 + n)
                 per.append((P.get("DIV" + l), P.get("DEL" + l), P.get("PHI" + l), P.get("ENCLK_CLKO" + self.N2L[n])))
+            ports = instance_outputs(o, ("PLL",))
+            r["wiring"] = all(ports.get("CLKO" + self.N2L[n]) is cds[n].clk for n in range(len(c["outs"])))
             r["P"] = {"REF_MMD_DIG": P.get("REF_MMD_DIG"), "DIVF": P.get("DIVF"), "DELF": P.get("DELF"),
                       "FBK_MMD_DIG": P.get("FBK_MMD_DIG"), "SEL_FBK": P.get("SEL_FBK"), "per": per}
         return r
@@ -1364,6 +1577,8 @@ class Nx:
                 region = "C20-nx-pfd-range-unchecked"          # PFD (vco_in_freq_range) violated: open finding
             P = real["P"]
             if P is not None:
+                if not real.get("wiring", True):
+                    viol.append("PLL output ports are not connected to the requested clock domains in order")
                 if P["DIVF"] != str(fb - 1) or P["FBK_MMD_DIG"] != "1" or P["SEL_FBK"] != "FBKCLK5":
                     viol.append("feedback parameters %s do not equal clkfb_div %s" % (P, fb))
                 for n, (dx, dl, phi, en) in enumerate(P["per"]):
@@ -1420,7 +1635,8 @@ class Nx:
                                 float(rng.randrange(6_250_000, 800_000_001))])
             f = min(max(f, float(flo)), float(fhi))
             outs.append((f, p, m))
-        return {"fam": "nx", "clkin": clkin, "outs": outs, "finalize": rng.random() < 0.12}
+        return gen_flags(rng, {"fam": "nx", "clkin": clkin, "outs": outs, "finalize": rng.random() < 0.12,
+                               "twice": rng.random() < 0.2})
 
 
 class NxOsc:
@@ -1559,13 +1775,15 @@ class Intel:
         try:
             o = mk_intel(cls, g)
             o.vco_margin = c["vm"]
-            o.register_clkin(Signal(), c["clkin"])
-            for i, (f, p, m) in enumerate(c["outs"]):
-                o.create_clkout(mk_cd(i), f, phase=p, margin=m, with_reset=False)
+            do_calls(c, lambda: o.register_clkin(Signal(), c["clkin"]),
+                     [lambda i=i, f=f, p=p, m=m: o.create_clkout(mk_cd(i), f, with_reset=False, **kw_for(c, p, m))
+                      for i, (f, p, m) in enumerate(c["outs"])])
             cfg = finalize_capture(o)
         except Exception as e:
             return {"status": status_of(e), "exc": repr(e)}
         P = instance_params(o, ("ALTPLL",)) or {}
+        if P.get("INCLK0_INPUT_FREQUENCY") != int(1e12 / c["clkin"]):
+            return {"status": "crash", "exc": "INCLK0_INPUT_FREQUENCY %s for clkin %s" % (P.get("INCLK0_INPUT_FREQUENCY"), c["clkin"])}
         k = len(c["outs"])
         return {"status": "ok", "m": cfg["m"], "vco": F(cfg["vco"]),
                 "divs": [F(cfg["clk%d_divide" % n]) for n in range(k)], "freqs": [F(cfg["clk%d_freq" % n]) for n in range(k)],
@@ -1710,7 +1928,7 @@ class Intel:
         d = self.devs[dev] if dev else rng.choice(list(self.devs.values()))
         vm = 0.0 if rng.random() < 0.9 else rng.choice([0.01, 0.05, 0.1])
         clkin = gen_clkin(rng, 5e6, 400e6)
-        k = min(d["nmax"], rng.choice([1, 1, 1, 2, 2, 3, 4, 5]))
+        k = min(d["nmax"], rng.choice([1, 1, 1, 1, 2, 2, 2, 3, 3, 4, 4, 5, 5, 5, 9, 18]))
         lo, hi = d["vco"][0] * (1 + F(vm)), d["vco"][1] * (1 - F(vm))
         vco = None
         ns = list(self.n_range(d, F(clkin)))
@@ -1745,7 +1963,7 @@ class Intel:
                 f = rng.choice([25e6, 50e6, 100e6, 125e6, 133.333e6, 148.5e6, 200e6, 300e6, 48e6, 12.288e6, 74.25e6,
                                 float(rng.randrange(2_000_000, 450_000_000))])
             outs.append((f, p, m))
-        return {"fam": "intel", "dev": d["name"], "clkin": clkin, "vm": vm, "outs": outs}
+        return gen_flags(rng, {"fam": "intel", "dev": d["name"], "clkin": clkin, "vm": vm, "outs": outs})
 
 
 # ------------------------------------------------------------------------------------------------------------------
@@ -1769,13 +1987,19 @@ class Gw1n:
         try:
             o = mk_gowin(c["dev"])
             o.vco_margin = c["vm"]
-            o.register_clkin(Signal(), c["clkin"])
-            for i, (f, p, m) in enumerate(c["outs"]):
-                o.create_clkout(mk_cd(i), f, phase=p, margin=m, with_reset=False)
+            do_calls(c, lambda: o.register_clkin(Signal(), c["clkin"]),
+                     [lambda i=i, f=f, p=p, m=m: o.create_clkout(mk_cd(i), f, with_reset=False, **kw_for(c, p, m))
+                      for i, (f, p, m) in enumerate(c["outs"])])
             cfg = finalize_capture(o)
         except Exception as e:
             return {"status": status_of(e), "exc": repr(e)}
         P = instance_params(o, ("rPLL", "PLLVR")) or {}
+        if P.get("FCLKIN") != str(c["clkin"] / 1e6):
+            return {"status": "crash", "exc": "FCLKIN %s for clkin %s" % (P.get("FCLKIN"), c["clkin"])}
+        ports = instance_outputs(o, ("rPLL", "PLLVR"))
+        for pin in self.PINS:
+            if pin in cfg and ports.get(pin) is not cfg[pin]:
+                return {"status": "crash", "exc": "primitive port %s is not connected to the clock the configuration assigns" % pin}
         pinmap = {}
         for pin in self.PINS:
             sig = cfg.get(pin)
@@ -1930,7 +2154,7 @@ class Gw1n:
             else:
                 f = rng.choice([27e6, 54e6, 108e6, 50e6, 100e6, 25e6, 125e6, 36e6, 72e6, float(rng.randrange(3_000_000, 400_000_000))])
             outs.append((f, p, m))
-        return {"fam": "gw1n", "dev": d["name"], "clkin": clkin, "vm": vm, "outs": outs}
+        return gen_flags(rng, {"fam": "gw1n", "dev": d["name"], "clkin": clkin, "vm": vm, "outs": outs})
 
 
 class GwOsc:
@@ -1997,5 +2221,369 @@ class GwOsc:
         return {"fam": "gwosc", "device": device, "f": f, "m": m}
 
 
+
+# ------------------------------------------------------------------------------------------------------------------
+# Gowin GW5A (oracle only: no Lean model)
+# ------------------------------------------------------------------------------------------------------------------
+
+class Gw5a:
+    fam = "gw5a"
+
+    def __init__(self, T):
+        self.devs = {d["name"]: d for d in T["gw5a"]}
+        self.products = sorted({a * b for a in range(1, 64) for b in range(2, 128)})
+
+    def lean_line(self, c):
+        return None
+
+    def real(self, c):
+        from migen import Signal
+        from litex.soc.cores.clock.gowin_gw5a import GW5APLL
+        _, devname, dev = next(g for g in GW5A if g[0] == c["dev"])
+        try:
+            o = GW5APLL(devname, dev)
+            o.vco_margin = c["vm"]
+            do_calls(c, lambda: o.register_clkin(Signal(), c["clkin"]),
+                     [lambda i=i, f=f, p=p, m=m: o.create_clkout(mk_cd(i), f, with_reset=False, **kw_for(c, p, m))
+                      for i, (f, p, m) in enumerate(c["outs"])])
+            cfg = finalize_capture(o)
+        except Exception as e:
+            return {"status": status_of(e), "exc": repr(e)}
+        P = instance_params(o, ("PLLA", "PLL")) or {}
+        ports = instance_outputs(o, ("PLLA", "PLL"))
+        k = len(c["outs"])
+        return {"status": "ok", "idiv": cfg["idiv"], "fdiv": cfg["fdiv"], "mdiv": cfg["mdiv"], "vco": F(cfg["vco"]),
+                "odivs": [cfg["odiv%d" % n] for n in range(k)],
+                "P": {"IDIV_SEL": P.get("IDIV_SEL"), "FBDIV_SEL": P.get("FBDIV_SEL"), "MDIV_SEL": P.get("MDIV_SEL"),
+                      "FCLKIN": P.get("FCLKIN"),
+                      "per": [(P.get("ODIV%d_SEL" % n), P.get("CLKOUT%d_EN" % n), P.get("CLKOUT%d_PE_COARSE" % n),
+                               P.get("CLKOUT%d_PE_FINE" % n)) for n in range(7)]},
+                "wiring": all(ports.get("CLKOUT%d" % n) is o.clkouts[n][0] for n in range(k))}
+
+    def parse(self, c, line):
+        return None
+
+    def compare(self, c, real, model):
+        return None
+
+    def out_checks(self, vco, f, p, m, slack_sign):
+        """exact acceptance test of one output at this VCO; slack_sign=+1 tolerant, -1 robust."""
+        x = vco / f
+        odiv = py_round(x)
+        if odiv < 1:
+            return None
+        near_half = abs((x - math.floor(x)) - F(1, 2)) <= SLACK * max(x, 1)
+        diff = abs(vco / odiv - f) / f
+        pe = py_round(p * odiv / 360)
+        perr = abs(F(360) * pe / odiv - p) / 360
+        tol = m + slack_sign * SLACK
+        return odiv, diff <= tol and perr <= tol, near_half
+
+    def oracle(self, c, real):
+        d = self.devs[c["dev"]]
+        clkin, vm = F(c["clkin"]), F(c["vm"])
+        outs = [(F(f), F(p), F(m)) for f, p, m in c["outs"]]
+        lo, hi = d["vco"][0] * (1 + vm), d["vco"][1] * (1 - vm)
+        pmin, pmax = d["pfd"]
+        viol, region = [], None
+        fl = Flags()
+        if real["status"] == "ok":
+            idiv, fdiv, mdiv = real["idiv"], real["fdiv"], real["mdiv"]
+            if not (1 <= idiv <= 64 and 1 <= fdiv <= 64 and 2 <= mdiv <= 128):
+                viol.append("idiv/fdiv/mdiv %s/%s/%s outside the primitive's ranges" % (idiv, fdiv, mdiv))
+            else:
+                pfd = clkin / idiv
+                vco = pfd * fdiv * mdiv
+                if not (pmin * (1 - SLACK) <= pfd <= pmax * (1 + SLACK)):
+                    viol.append("PFD %s Hz outside declared range" % float(pfd))
+                if not (lo * (1 - SLACK) <= vco <= hi * (1 + SLACK)):
+                    viol.append("VCO %s Hz outside declared range" % float(vco))
+                if not rel_close(vco, real["vco"]):
+                    viol.append("reported vco differs from clkin/idiv*fdiv*mdiv")
+                P = real["P"]
+                if (P["IDIV_SEL"], P["FBDIV_SEL"], P["MDIV_SEL"]) != (idiv, fdiv, mdiv) or P["FCLKIN"] != str(c["clkin"] / 1e6):
+                    viol.append("IDIV_SEL/FBDIV_SEL/MDIV_SEL/FCLKIN %s do not equal the configuration" % (P,))
+                for n, (f, p, m) in enumerate(outs):
+                    od = real["odivs"][n]
+                    if od < 1:
+                        viol.append("odiv%d = %s" % (n, od))
+                        continue
+                    if od > 128:
+                        region = "C20-gw5a-odiv-unchecked"
+                    if not (abs(vco / od - f) <= f * m + SLACK * f):
+                        viol.append("clkout%d: %s Hz vs requested %s Hz margin %s" % (n, float(vco / od), float(f), float(m)))
+                    sel, en, pc, pf = P["per"][n]
+                    want_pc = math.floor(p * od / 360) if p >= 0 else -math.floor(-p * od / 360)
+                    if sel != od or en != "TRUE" or pc != want_pc or pf != py_round(p * od * 8 / 360) % 8:
+                        viol.append("ODIV%d_SEL/EN/PE_COARSE/PE_FINE = %s/%s/%s/%s for odiv %s phase %s" % (n, sel, en, pc, pf, od, float(p)))
+                for n in range(len(outs), 7):
+                    if P["per"][n][1] != "FALSE":
+                        viol.append("unrequested output %d enabled" % n)
+                if not real["wiring"]:
+                    viol.append("PLL output ports are not connected to the requested clock outputs in order")
+        elif real["status"] == "rejected":
+            found = None
+            for idiv in range(1, 64):
+                pfd = clkin / idiv
+                if not rob_in(pmin, pfd, pmax, False):
+                    continue
+                klo, khi = math.ceil(lo * (1 + SLACK) / pfd), math.floor(hi * (1 - SLACK) / pfd)
+                import bisect
+                for K in self.products[bisect.bisect_left(self.products, klo):bisect.bisect_right(self.products, khi)]:
+                    vco = pfd * K
+                    good = True
+                    for (f, p, m) in outs:
+                        r = self.out_checks(vco, f, p, m, -1)
+                        if r is None or not r[1] or r[2]:
+                            good = False
+                            break
+                    if good:
+                        found = (idiv, K)
+                        break
+                if found:
+                    break
+            if found:
+                viol.append("refused although idiv=%s fdiv*mdiv=%s satisfies the request" % found)
+        else:
+            viol.append("unexpected exception " + real.get("exc", ""))
+        if viol:
+            region = None
+        return viol, fl.borderline, fl.why, None, region
+
+    def gen(self, rng):
+        d = rng.choice(list(self.devs.values()))
+        vm = 0.0 if rng.random() < 0.85 else rng.choice([0.01, 0.05])
+        clkin = gen_clkin(rng, 10e6, 400e6)
+        k = rng.choice([1, 1, 2, 2, 3, 4, 7])
+        lo, hi = d["vco"][0] * (1 + F(vm)), d["vco"][1] * (1 - F(vm))
+        vco = None
+        for _ in range(40):
+            idiv = rng.choice([1, 1, 2, 3, rng.randrange(1, 20)])
+            pfd = F(clkin) / idiv
+            if not (d["pfd"][0] <= pfd <= d["pfd"][1]):
+                continue
+            ks = [K for K in self.products if lo <= pfd * K <= hi]
+            if ks:
+                vco = pfd * rng.choice(ks)
+                break
+        kind = rng.random()
+        outs = []
+        for n in range(k):
+            m = rng.choice([1e-6, 1e-3, 1e-2, 1e-2])
+            p = rng.choice([0, 0, 0, 90, 180, 270, 45])
+            if vco is not None and kind < 0.85:
+                od = rng.choice([rng.randrange(1, 129), rng.randrange(2, 33)])
+                if p:
+                    od = max(8, od - od % 8)             # phases realisable exactly
+                f = float(vco / od * (1 + F(rng.choice([0, 0, 0.5, -0.5, 0.9])) * F(m)))
+            else:
+                f = rng.choice([25e6, 50e6, 100e6, 125e6, 27e6, 74.25e6, 5e6, float(rng.randrange(5_000_000, 400_000_000))])
+            outs.append((f, p, m))
+        return gen_flags(rng, {"fam": "gw5a", "dev": d["name"], "clkin": clkin, "vm": vm, "outs": outs})
+
+
+# ------------------------------------------------------------------------------------------------------------------
+# Efinix Trion (oracle only; built through a stub platform the way EFINIXPLL uses it)
+# ------------------------------------------------------------------------------------------------------------------
+
+class _IfaceWriter:
+    def __init__(self):
+        self.blocks = []
+
+    def get_block(self, name):
+        return next(b for b in self.blocks if b["name"] == name)
+
+
+class _EfxToolchain:
+    def __init__(self):
+        self.ifacewriter = _IfaceWriter()
+        self.excluded_ios = []
+        self.additional_sdc_commands = []
+
+
+class _EfxPlatform:
+    family = "Trion"
+    device = "T120F324"
+
+    def __init__(self):
+        self.toolchain = _EfxToolchain()
+        self.clks = {}
+        self.pll_used = []
+        self.pll_available = ["PLL_TL0"]
+
+    def add_iface_io(self, name, size=1):
+        from migen import Signal
+        return Signal(size)
+
+    def get_pin_name(self, sig):
+        return None
+
+    def get_pin_location(self, sig):
+        return None
+
+    def get_free_pll_resource(self):
+        return "PLL_TL0"
+
+
+class Trion:
+    fam = "trion"
+
+    def __init__(self, T):
+        self.d = T["trion"]
+
+    def lean_line(self, c):
+        return None
+
+    def parse(self, c, line):
+        return None
+
+    def compare(self, c, real, model):
+        return None
+
+    def c_list(self, phase):
+        if phase == 0:
+            lo, hi, n = self.d["c0"]
+            return list(range(lo, hi + 1))
+        return list(self.d["c_phase"].get(str(int(phase)), []))
+
+    def real(self, c):
+        from litex.soc.cores.clock.efinix import TRIONPLL
+        try:
+            plat = _EfxPlatform()
+            o = TRIONPLL(plat)
+            do_calls(c, lambda: o.register_clkin(None, c["clkin"], name="clk_in"),
+                     [lambda i=i, f=f, p=p: o.create_clkout(None, f, name="out%d" % i, is_feedback=(i == c["fb"]),
+                                                            **({} if c.get("defaults") and p == 0 else {"phase": p}))
+                      for i, (f, p) in enumerate(c["outs"])])
+            with quiet():
+                o.finalize()
+            b = plat.toolchain.ifacewriter.get_block(o.name)
+        except Exception as e:
+            return {"status": status_of(e), "exc": repr(e)}
+        if "M" not in b:
+            return {"status": "crash", "exc": "no configuration written to the interface block"}
+        return {"status": "ok", "M": b["M"], "N": b["N"], "O": b["O"], "vco": F(b["VCO_FREQ"]),
+                "cs": [b.get("CLKOUT%d_DIV" % i) for i in range(len(c["outs"]))], "input_freq": b.get("input_freq"),
+                "clk_out": [(x[1], x[2]) for x in b["clk_out"]], "feedback": b["feedback"]}
+
+    def solutions(self, c):
+        """all exactly valid (N, M, O, Cfb, [C...]) — the declared Trion limits, by solving the equations."""
+        d = self.d
+        fin = F(c["clkin"])
+        outs = [(F(f), p) for f, p in c["outs"]]
+        k = len(outs)
+        ffb, pfb = outs[c["fb"]]
+        o_fact = [2, 4, 8] if k > 1 else [1, 2, 4, 8]
+        sols = []
+        for N in range(1, 16):
+            pfd = fin / N
+            if not (d["pfd"][0] <= pfd <= d["pfd"][1]):
+                continue
+            M = ffb / pfd
+            if M.denominator != 1 or not (1 <= M <= 255):
+                continue
+            M = int(M)
+            for cfb in self.c_list(pfb):
+                fpll = ffb * cfb
+                if not (d["pll"][0] <= fpll <= d["pll"][1]):
+                    continue
+                cs = []
+                for i, (f, p) in enumerate(outs):
+                    cx = fpll / f
+                    if cx.denominator != 1 or int(cx) not in self.c_list(p) or (i == c["fb"] and cx != cfb):
+                        cs = None
+                        break
+                    cs.append(int(cx))
+                if cs is None:
+                    continue
+                for O in o_fact:
+                    vco = fpll * O
+                    if d["vco"][0] <= vco <= d["vco"][1] and M * O * cfb <= 255:
+                        sols.append((N, M, O, cfb, cs))
+        return sols
+
+    def oracle(self, c, real):
+        d = self.d
+        fin = F(c["clkin"])
+        outs = [(F(f), p) for f, p in c["outs"]]
+        k = len(outs)
+        viol = []
+        region = None
+        tol = F(1, 10 ** 12)
+        if real["status"] == "ok":
+            N, M, O, cs = real["N"], real["M"], real["O"], real["cs"]
+            o_fact = [2, 4, 8] if k > 1 else [1, 2, 4, 8]
+            if not (1 <= N <= 15 and 1 <= M <= 255 and O in o_fact):
+                viol.append("N/M/O = %s/%s/%s outside the declared ranges" % (N, M, O))
+            elif any(cx is None for cx in cs):
+                viol.append("missing output divider %s" % (cs,))
+            else:
+                cfb = cs[c["fb"]]
+                pfd = fin / N
+                vco = pfd * M * O * cfb
+                fpll = vco / O
+                if not (d["pfd"][0] * (1 - SLACK) <= pfd <= d["pfd"][1] * (1 + SLACK)):
+                    viol.append("PFD %s Hz outside declared range" % float(pfd))
+                if not (d["vco"][0] * (1 - SLACK) <= vco <= d["vco"][1] * (1 + SLACK)):
+                    viol.append("VCO %s Hz outside declared range" % float(vco))
+                if fpll > d["pll"][1] * (1 + SLACK):
+                    region = "C20-trion-fpll-max-unchecked"      # reported finding: `clk_fb_freq > pll_max` lacks `* c`
+                elif fpll < d["pll"][0] * (1 - SLACK):
+                    viol.append("PLL output frequency %s Hz (before the C dividers) below the declared minimum" % float(fpll))
+                if M * O * cfb > 255:
+                    viol.append("M*O*Cfbk = %d > 255" % (M * O * cfb))
+                if not rel_close(vco, real["vco"], tol):
+                    viol.append("reported VCO_FREQ differs from fin/N*M*O*Cfbk")
+                for i, ((f, p), cx) in enumerate(zip(outs, cs)):
+                    if cx not in self.c_list(p):
+                        viol.append("CLKOUT%d_DIV %s not allowed for phase %s" % (i, cx, p))
+                    elif not rel_close(fpll / cx, f, tol):
+                        viol.append("clkout%d: %s Hz vs requested %s Hz" % (i, float(fpll / cx), float(f)))
+                if real["input_freq"] != c["clkin"] or real["feedback"] != c["fb"] or \
+                        [tuple(x) for x in real["clk_out"]] != [tuple(x) for x in c["outs"]]:
+                    viol.append("interface block does not carry the request (input_freq/feedback/clk_out)")
+        elif real["status"] == "assertion":
+            if c.get("exact") and self.solutions(c):
+                viol.append("refused although N,M,O,Cfbk,C = %s satisfies the request" % (self.solutions(c)[0],))
+        else:
+            viol.append("unexpected exception " + real.get("exc", ""))
+        if viol:
+            region = None
+        return viol, False, None, None, region
+
+    def gen(self, rng):
+        d = self.d
+        k = rng.choice([1, 1, 2, 2, 3])
+        fb = rng.randrange(k)
+        for _ in range(200):
+            N = rng.choice([1, 1, 2, 3, 4, 5])
+            pfd = rng.randrange(10, 101) * 1_000_000
+            fin = pfd * N
+            o_fact = [2, 4, 8] if k > 1 else [1, 2, 4, 8]
+            O = rng.choice(o_fact)
+            phases = [rng.choice([0, 0, 0, 90, 180, 270, 45, 135]) for _ in range(k)]
+            cfb = rng.choice(self.c_list(phases[fb]))
+            mmax = 255 // (O * cfb)
+            if mmax < 1:
+                continue
+            M = rng.randrange(1, mmax + 1)
+            fpll = pfd * M * cfb
+            vco = fpll * O
+            if not (d["vco"][0] <= vco <= d["vco"][1] and d["pll"][0] <= fpll <= d["pll"][1]):
+                continue
+            outs = []
+            for i in range(k):
+                cx = cfb if i == fb else rng.choice(self.c_list(phases[i]))
+                outs.append((float(F(fpll, cx)), phases[i]))
+            exact = all(F(f) * cx == fpll for (f, _), cx in zip(outs, [cfb if i == fb else None for i in range(k)]) if cx)
+            c = {"fam": "trion", "clkin": float(fin), "outs": outs, "fb": fb, "exact": True}
+            c["exact"] = all(F(f).denominator == 1 for f, _ in outs)
+            if rng.random() < 0.12:          # unsatisfiable variant
+                f0, p0 = outs[0]
+                outs[0] = (f0 + 1000.0, p0)
+            return gen_flags(rng, c)
+        return gen_flags(rng, {"fam": "trion", "clkin": 50e6, "outs": [(100e6, 0)], "fb": 0, "exact": True})
+
+
 Xilinx.first_key = lambda self, real: (real["divclk"], real["mult"])
-FAMILY_CLASSES = [Xilinx, Ecp5, Ice40, Nx, NxOsc, NxOscFin, Intel, Gw1n, GwOsc]
+FAMILY_CLASSES = [Xilinx, Ecp5, Ice40, Nx, NxOsc, NxOscFin, Intel, Gw1n, GwOsc, Gw5a, Trion]
